@@ -136,6 +136,7 @@ fn run_line(line: &str) -> Result<String, String> {
         "rd" => suite_rd(&mut t),
         "ard" => suite_ard(&mut t),
         "sk" => suite_sk(&mut t),
+        "rds" => suite_rds(&mut t),
         "urt" => suite_urt(&mut t),
         "usk" => suite_usk(&mut t),
         "msgw" => suite_msgw(&mut t),
@@ -677,6 +678,37 @@ fn suite_urt(t: &mut Toks) -> Result<String, String> {
         }
     };
     let mut out = format!("W {} Z {} L {} I {}", hex(&bytes), zc, usize_len, idx);
+    // every write flavour of the unchecked writer (write_bytes_vec / write_string / write_faststr) must give the same bytes
+    for api in [BinApi::BytesVec, BinApi::Str, BinApi::FastStr] {
+        let b2: Option<Vec<u8>> = match bk {
+            Bk::Contig => {
+                let mut buf = BytesMut::with_capacity(size + slack);
+                buf.resize(size + slack, 0xEE);
+                let window: &'static mut [u8] = unsafe { std::slice::from_raw_parts_mut(buf.as_mut_ptr(), buf.len()) };
+                let mut p = unsafe { TBinaryUnsafeOutputProtocol::new(&mut buf, window, false) };
+                let ok = vs.iter().all(|v| write_val(&mut p, v, api).is_ok());
+                let i2 = p.index();
+                drop(p);
+                if ok { Some(buf[..i2.min(buf.len())].to_vec()) } else { None }
+            }
+            Bk::Linked(z) => {
+                let mut lb = LinkedBytes::with_capacity(size + slack);
+                let window: &'static mut [u8] = unsafe {
+                    let l = lb.bytes_mut().len();
+                    std::slice::from_raw_parts_mut(lb.bytes_mut().as_mut_ptr().add(l), lb.bytes_mut().capacity() - l)
+                };
+                let mut p = unsafe { TBinaryUnsafeOutputProtocol::new(&mut lb, window, z) };
+                let ok = vs.iter().all(|v| write_val(&mut p, v, api).is_ok());
+                let i2 = p.index();
+                drop(p);
+                unsafe { bytes::BufMut::advance_mut(lb.bytes_mut(), i2) };
+                if ok { Some(linked_concat(&mut lb)) } else { None }
+            }
+        };
+        if b2.as_deref() != Some(&bytes[..]) {
+            out.push_str(&format!(" ORACLE-FAIL unchecked-write-api-{api:?}"));
+        }
+    }
     let mut input = bytes.clone();
     input.extend_from_slice(&rest);
     let tys: Vec<u8> = vs.iter().map(ttype_code).collect();
@@ -761,4 +793,117 @@ fn suite_usk(t: &mut Toks) -> Result<String, String> {
             }
         }
     })
+}
+
+fn skipped_marker(count: i64) -> TVal {
+    TVal::List(1, vec![TVal::I64(count)])
+}
+
+/// the tolerant struct reader over any in-memory protocol
+fn tread_struct<P: TInputProtocol>(p: &mut P, ids: &[i16]) -> Result<TVal, ThriftException> {
+    p.read_struct_begin()?;
+    let mut fs = Vec::new();
+    loop {
+        let f = p.read_field_begin()?;
+        if f.field_type == pilota::thrift::TType::Stop {
+            break;
+        }
+        let id = f.id.unwrap_or(0);
+        if ids.contains(&id) {
+            let n = p.skip(f.field_type)?;
+            fs.push((id, skipped_marker(n as i64)));
+        } else {
+            let x = read_val(p, f.field_type as u8, BinApi::Bytes)?;
+            fs.push((id, x));
+        }
+        p.read_field_end()?;
+    }
+    p.read_struct_end()?;
+    Ok(TVal::Struct(fs))
+}
+
+async fn atread_struct<P: pilota::thrift::TAsyncInputProtocol>(p: &mut P, ids: &[i16]) -> Result<TVal, ThriftException> {
+    p.read_struct_begin().await?;
+    let mut fs = Vec::new();
+    loop {
+        let f = p.read_field_begin().await?;
+        if f.field_type == pilota::thrift::TType::Stop {
+            break;
+        }
+        let id = f.id.unwrap_or(0);
+        if ids.contains(&id) {
+            p.skip(f.field_type).await?;
+            fs.push((id, skipped_marker(-1)));
+        } else {
+            let x = asyncrd::aread_val(p, f.field_type as u8, asyncrd::ABinApi::Bytes).await?;
+            fs.push((id, x));
+        }
+        p.read_field_end().await?;
+    }
+    p.read_struct_end().await?;
+    Ok(TVal::Struct(fs))
+}
+
+/// rds <binary|binary_le|compact|unsafe> <sync|async[:sched]> <hex> <ids|->
+fn suite_rds(t: &mut Toks) -> Result<String, String> {
+    let pks = t.next()?;
+    let mode = t.next()?;
+    let input = unhex(t.next()?)?;
+    let ids_s = t.next()?;
+    let ids: Vec<i16> = if ids_s == "-" { vec![] } else {
+        ids_s.split(',').map(|x| x.parse::<i16>().map_err(|e| e.to_string())).collect::<Result<Vec<_>, _>>()?
+    };
+    let fin = |r: Result<TVal, ThriftException>, rem: usize| -> String {
+        match r {
+            Err(e) => show_err(&e),
+            Ok(v) => {
+                let mut out = String::from("ok ");
+                show_val(&mut out, &v);
+                out.push_str(&format!(" REM {rem}"));
+                out
+            }
+        }
+    };
+    if pks == "unsafe" {
+        use pilota::thrift::binary_unsafe::TBinaryUnsafeInputProtocol;
+        let mut b = Bytes::copy_from_slice(&input);
+        let (r, idx) = {
+            let mut p = unsafe { TBinaryUnsafeInputProtocol::new(&mut b) };
+            let r = tread_struct(&mut p, &ids);
+            (r, p.index())
+        };
+        return Ok(fin(r, b.len().saturating_sub(idx)));
+    }
+    let pk = parse_pk(pks)?;
+    if mode == "sync" {
+        let mut b = Bytes::copy_from_slice(&input);
+        let r = match pk {
+            Pk::Binary => tread_struct(&mut TBinaryProtocol::new(&mut b, false), &ids),
+            Pk::BinaryLe => tread_struct(&mut TBinaryLeProtocol::new(&mut b, false), &ids),
+            Pk::Compact => tread_struct(&mut TCompactInputProtocol::new(&mut b), &ids),
+        };
+        Ok(fin(r, b.len()))
+    } else {
+        use pilota::thrift::{binary::TAsyncBinaryProtocol, binary_le::TAsyncBinaryProtocol as TAsyncBinaryLeProtocol, compact::TAsyncCompactProtocol};
+        let sched = mode.strip_prefix("async:").unwrap_or("all");
+        let (cuts, pend) = parse_cuts(sched, input.len())?;
+        let mut rd = asyncrd::Scripted::new(input.to_vec(), cuts, pend);
+        let budget = (input.len() + 16) * (pend + 2) * 8 + 100_000;
+        macro_rules! go {
+            ($p:expr) => {{
+                let mut p = $p;
+                asyncrd::block_on(async { atread_struct(&mut p, &ids).await }, budget)
+            }};
+        }
+        let r = match pk {
+            Pk::Binary => go!(TAsyncBinaryProtocol::new(&mut rd)),
+            Pk::BinaryLe => go!(TAsyncBinaryLeProtocol::new(&mut rd)),
+            Pk::Compact => go!(TAsyncCompactProtocol::new(&mut rd)),
+        };
+        let pulled = rd.handed_out;
+        Ok(match r {
+            None => "HANG".to_string(),
+            Some(r) => fin(r, input.len() - pulled),
+        })
+    }
 }
